@@ -251,6 +251,11 @@ def native_roundtrip(B, U, verts, sample_fresh):
     from edgegraph.output import nrpickler
     from edgegraph.structure import Vertex
     from edgegraph.traversal import helpers, breadthfirst
+    # one vertex carries payloads larger than the pickle framing threshold (64 KiB): pickle writes those
+    # around its frame buffer, straight to the file object
+    if verts:
+        verts[0].blob = "x" * 70000
+        verts[0].blob_b = b"y" * 70000
     for warm in (False, True):
         Vertex.NEIGHBOR_CACHING = warm
         if warm:
@@ -301,6 +306,9 @@ def native_roundtrip(B, U, verts, sample_fresh):
                 [sorted(o.__dict__) for o in objs] == vars_before and
                 [[list(o.__dict__.get(f, [])) for f in ("_links", "_vertices", "_universes")] for o in objs] == lists_before)
     Vertex.NEIGHBOR_CACHING = False
+    if verts:
+        del verts[0].blob
+        del verts[0].blob_b
     if sample_fresh and len(U.vertices) > 0:
         root = os.environ.get("EDGEGRAPH_ROOT", "/repo")
         env = dict(os.environ)
